@@ -73,8 +73,14 @@ class Ctx:
         self.char = {m: t["char"] for m, t in tabs.items()}
         self.by_char = {t["char"]: m for m, t in tabs.items()}
         self.require = {m: t["version"] for m, t in tabs.items()}
-        # table rows per model: (c,v) -> (chan, act, val)
-        self.rows = {m: {(c, v): (ch, act, val) for (c, v, ch, act, val) in t["table"]} for m, t in tabs.items()}
+        # table rows per model: (c,v) -> (chan, act, val).  The legal context of a probe comes from the
+        # DOCUMENTED mapping (the pinned Spec/EventValues.lean overrides the regenerated rows): a leave
+        # event is probed after the enter event the documentation pairs it with, not after whatever the
+        # table under test happens to pop
+        import emu_props
+        doc = emu_props.load_doc_tables(tabs)
+        self.rows = {m: {(c, v): (ch, act, val) for (c, v, ch, act, val) in t["table"]} for m, t in doc.items()
+                     if isinstance(t, dict) and "table" in t}
 
     def stream(self):
         s = Stream(tid=TID, pid=1, cpus=[(0, 0), (1, 1)], require=self.require)
